@@ -22,7 +22,7 @@ from ..common import Report, stream, digest, order_to_decisions, big
 from ..isolation import pristine_state
 from ..engine import Engine, Monitor, Scripted
 from ..ops import canon_fd, canon_rt, canon_vd
-from ..terms import World, snap
+from ..terms import World, snap, diff_path
 
 PID = "C16"
 
@@ -65,10 +65,15 @@ def parse(entry, spec):
         import os
         import tempfile
 
-        fd, path = tempfile.mkstemp(prefix="valida_dst_", suffix=".yaml")
+        from ..engine import SimKill
+
         try:
+            fd, path = tempfile.mkstemp(prefix="valida_dst_", suffix=".yaml")
             with os.fdopen(fd, "w") as fh:
                 fh.write(spec)
+        except OSError as e:  # the harness's own I/O, not valida's
+            raise SimKill(f"cannot write the temporary YAML file: {e!r}")
+        try:
             return Schema.from_yaml_file(path)
         finally:
             os.unlink(path)
@@ -523,20 +528,24 @@ def on_boundary(eng, c, k, op, out):
     docs = st["docs"]
     vio = []
     res = st["last"]
-    # (iii) parse of a fresh deep copy of the same spec term (and a second one,
-    # to make sure equality is meaningful for this spec at all)
+    # Reference: ONE fresh copy of the spec structure, parsed twice (the
+    # property's own wording: "parsing the same spec structure a second time
+    # yields an object equal to the first").  f2 is never used for anything
+    # but equality, so it stays exactly as the parser returned it.
     if kind == "yaml":
         # reference for a YAML text with anchors: what the safe loader returns
         # for this text, with every alias expanded into its own copy, parsed
         # through init_rules (loading the text - rather than taking the term -
         # keeps the mapping key order the dumper chose)
         with pristine_state():
-            f1 = try_parse("Schema.init_rules", _load_unshared(world.get("specs", si)))
-            f2 = try_parse("Schema.init_rules", _load_unshared(world.get("specs", si)))
+            fs = _load_unshared(world.get("specs", si))
+            f1 = try_parse("Schema.init_rules", fs)
+            f2 = try_parse("Schema.init_rules", fs)
     else:
         with pristine_state():
-            f1 = try_parse(entry, World(term).get("specs", si))
-            f2 = try_parse(entry, World(term).get("specs", si))
+            fs = World(term).get("specs", si)
+            f1 = try_parse(entry, fs)
+            f2 = try_parse(entry, fs)
     st["parses"] += 1
     if res[0] != f1[0] or (res[0] == "raise" and res[1] != f1[1]):
         vio.append(
@@ -552,65 +561,59 @@ def on_boundary(eng, c, k, op, out):
         st["both_raise"] += 1
         return vio
     obj = res[1]
-    eq_ok = False
-    try:
-        eq_ok = f1[0] == "ok" and f2[0] == "ok" and bool(f1[1] == f2[1])
-    except Exception:
-        eq_ok = False
-    if not eq_ok:
-        # "parsing the same spec structure a second time yields an object equal
-        # to the first": if even two parses of two fresh deep copies are not
-        # equal, that sentence cannot hold for this spec
-        st["eq_unusable"] += 1
+
+    # --- equality first, on objects nobody has used yet --------------------
+    def equal(a, b):
         try:
-            detail = repr(f1[1] == f2[1])
+            return bool(a == b)
         except Exception as e:
-            detail = f"raise {type(e).__name__}"
-        vio.append(dict(oracle="reparse_differs", locus=f"{entry}:two_fresh_parses_not_equal", detail={"op": op, "eq": detail}))
+            return ("raise", type(e).__name__)
+
+    if f2[0] != "ok" or equal(f1[1], f2[1]) is not True:
+        st["eq_unusable"] += 1
+        vio.append(dict(oracle="reparse_differs", locus=f"{entry}:second_parse_of_a_fresh_structure_not_equal", detail={"op": op, "second": repr(f2)[:200]}))
         return vio
+    same = equal(obj, f2[1])
+    if same is not True:
+        vio.append(dict(oracle="reparse_differs", locus=f"{entry}:not_equal_to_fresh", detail={"op": op, "eq": repr(same)}))
+        return vio
+    first = st["first"].get((si, entry))
+    if first is not None:
+        st["reparses"] += 1
+        # the witness of the first parse is an equal object that was never used
+        same = equal(first["witness"], obj)
+        if same is not True:
+            vio.append(dict(oracle="reparse_differs", locus=f"{entry}:not_equal_to_first", detail={"op": op, "eq": repr(same)}))
+            return vio
+
+    # --- then behaviour ------------------------------------------------------
     with pristine_state():
         bf = behaviour(kind, f1[1], docs)
     bs = behaviour(kind, obj, docs)
     if bs != bf:
         vio.append(dict(oracle="reparse_differs", locus=f"{entry}:behaviour", detail={"op": op, "shared": repr(bs)[:500], "fresh": repr(bf)[:500]}))
         return vio
-    if eq_ok:
-        try:
-            same = bool(obj == f1[1])
-        except Exception as e:
-            same = ("raise", type(e).__name__)
-        if same is not True:
-            vio.append(dict(oracle="reparse_differs", locus=f"{entry}:not_equal_to_fresh", detail={"op": op, "eq": repr(same)}))
-            return vio
-    # (ii) k-th parse vs first parse of this structure through this entry point
-    first = st["first"].get((si, entry))
+    if first is not None and first["behaviour"] != bs:
+        vio.append(dict(oracle="reparse_differs", locus=f"{entry}:behaviour_vs_first", detail={"op": op}))
+        return vio
     if first is None:
-        st["first"][(si, entry)] = (obj, bs)
-    else:
-        st["reparses"] += 1
-        fobj, fb = first
-        if fb != bs:
-            vio.append(dict(oracle="reparse_differs", locus=f"{entry}:behaviour_vs_first", detail={"op": op}))
-            return vio
-        if eq_ok:
-            try:
-                same = bool(fobj == obj)
-            except Exception as e:
-                same = ("raise", type(e).__name__)
-            if same is not True:
-                vio.append(dict(oracle="reparse_differs", locus=f"{entry}:not_equal_to_first", detail={"op": op, "eq": repr(same)}))
-                return vio
-        # earlier results must not have been altered by later parses either
-        # (a Rule aliasing the caller's cast dict is emptied by the next parse)
-    for (sj, ej), (fobj, fb) in list(st["first"].items()):
-        kj = term["spec_kinds"][sj]
-        nb = behaviour(kj, fobj, docs)
-        if nb != fb:
+        st["first"][(si, entry)] = {"obj": obj, "behaviour": bs, "witness": f2[1], "snap": None}
+    # Earlier results must not be altered by LATER PARSES (a Rule that aliases
+    # the caller's cast dict is emptied by the next parse).  Their structure is
+    # recorded at the end of the step in which they were produced and compared
+    # at the end of every later step; nothing but parses (and probes of other
+    # results) happens in between.
+    for (sj, ej), rec in list(st["first"].items()):
+        now = snap(rec["obj"])
+        if rec["snap"] is None:
+            rec["snap"] = now
+        elif now != rec["snap"]:
+            path = diff_path(rec["snap"], now)
             vio.append(
                 dict(
                     oracle="earlier_result_changed_by_later_parse",
                     locus=f"{ej}->{entry}",
-                    detail={"earlier": (sj, ej), "op": op, "before": repr(fb)[:400], "after": repr(nb)[:400]},
+                    detail={"earlier": (sj, ej), "op": op, "diff": list(path or ())},
                 )
             )
             return vio
@@ -646,9 +649,7 @@ def run(case):
     mon = Monitor()
     for i in range(n):
         mon.register(f"specs[{i}]", world.get("specs", i))
-    docs = [world.get("docs", i) for i in range(len(term["docs"]))]
-    for i, d in enumerate(docs):
-        mon.register(f"docs[{i}]", d)
+    docs = [world.get("docs", i) for i in range(len(term["docs"]))]  # probes only; whether reads leave them alone is C08's statement
     world.state = {"docs": docs, "first": {}, "count": {}, "last": None, "parses": 0, "reparses": 0, "both_raise": 0, "eq_unusable": 0}
     eng = Engine(world, case["programs"], exec_op, mon, Scripted(case["decisions"]), mode="op", on_boundary=on_boundary)
     eng.locus_hook = locus_hook
